@@ -152,6 +152,18 @@ var deformations = []deformation{
 		}
 		return src
 	}},
+	{"long-line", func(rt *rapid.T, src, label string) string {
+		// a line longer than 64 KiB (the default limit of a bufio.Scanner),
+		// with more code after it
+		if strings.Contains(src, "deformBlob") {
+			return src
+		}
+		nl := "\n"
+		if strings.Contains(src, "\r\n") {
+			nl = "\r\n"
+		}
+		return src + nl + "var deformBlob = \"" + strings.Repeat("y", 66000+rapid.IntRange(0, 9000).Draw(rt, label+"len")) + "\"" + nl + nl + "func deformAfterBlob() string { return deformBlob }" + nl
+	}},
 	{"import-to-group", func(rt *rapid.T, src, label string) string {
 		// import "x"  ->  import ( "x" )  on one line, spaced oddly
 		return pickLines(rt, src, label, func(l string) bool { return strings.HasPrefix(l, "import \"") },
